@@ -156,6 +156,8 @@ def handleLookup (args : List String) : String :=
               if sm = 1 then optIdx (specFirstEqual true lookup keys)
               else if sm = -1 then optIdx (specLastEqual true lookup keys)
               else "-"
+            else if mm == 0 && (sm == 2 || sm == -2) && !keys.isEmpty && sameKind lookup keys && strictlyRuns (sm == -2) keys then
+              optIdx (specBinExact lookup keys)
             else "-"
           | none => "-"
         s!"{encRes (xmatchFn lookup (.list rows) mm sm)} | {spec} | "
